@@ -372,6 +372,11 @@ func eval(c fcase) ev.Result {
 				f.applied = true
 			}
 			resp.Body = rd
+			// servers with and without a Content-Length header (chunked / close-delimited bodies)
+			resp.ContentLength = -1
+			if c.Seed%2 == 0 && c.Fault == "none" {
+				resp.ContentLength = int64(len(body))
+			}
 			return resp, nil
 		})
 		dev.Modules = map[string]serviceinfo.DeviceModule{"fdo.wget": &devProxy{f: f, inner: &fsim.Wget{CreateTemp: mkTemp, NameToPath: func(n string) string { return filepath.Join(dest, n) }, Client: &http.Client{Transport: rt}, Timeout: 20 * time.Second}}}
